@@ -135,15 +135,20 @@ def handle (op : String) : Option Handler :=
       pure (Json.mkObj [("dict", Json.arr (r.1.map (fun p => Json.arr #[jstr p.1, jstr p.2])).toArray),
                         ("warnings", Json.num r.2)])
   | "c16.parse_include" => some fun j => do
+      -- iter: [[namespace, [[include name, version], ...] in set-iteration order], ...]
       let tbl ← (← arrOf j "iter").mapM (fun e => do
         let a ← e.getArr?
         let k ← (a[0]?.getD Json.null).getStr?
-        let v ← (← (a[1]?.getD Json.null).getArr?).toList.mapM (fun x => do pure (← x.getStr?).toList)
+        let v ← (← (a[1]?.getD Json.null).getArr?).toList.mapM (fun x => do
+          let p ← x.getArr?
+          pure ((← (p[0]?.getD Json.null).getStr?).toList, (← (p[1]?.getD Json.null).getStr?).toList))
         pure (k.toList, v))
       let iter := fun n => (dictGet tbl n).getD []
       let roots ← strListOf j "roots"
       let fuel ← natOf j "fuel"
-      pure (jstrs (roots.foldl (fun acc r => if acc.contains r then acc else parseInclude iter fuel acc r) []))
+      let run := fun (f : Nat → List Str → Str → List Str) =>
+        roots.foldl (fun acc r => if acc.contains r then acc else f fuel acc r) []
+      pure (Json.mkObj [("order", jstrs (run (parseInclude iter))), ("old", jstrs (run (parseIncludeOld iter)))])
   | "c16.fixpoint" => some fun j => do
       let nodes ← (← arrOf j "nodes").mapM inodeOf
       let tf ← boolsOf j "tf"
